@@ -94,6 +94,8 @@ def build(d, real=False):
             elif "doy" in fields:
                 st["doy"] = 366
                 st["year_y"] = st["year_y"] - st["year_y"] % 4 + 1
+                if d.chance(1, 3) and not ({"YY", "0Y"} & set(parts)):
+                    st["year_y"] = 9999  # day 366 of the last representable year
             t = ref_render(nodes, st) if 1000 <= st["year_y"] <= 9999 else "x"
         if real and (not t or set(t) - SAFE_TAG_CHARS or t.startswith("-") or t.startswith("/") or t.endswith("/") or t.endswith(".")
                      or ".." in t or "//" in t or t.endswith(".lock") or "/." in t or t.startswith(".")):
